@@ -234,3 +234,59 @@ func VH_C06_Revoke() {
 	}
 	symCover("rendered")
 }
+
+// ---- C06.builtins: the engine's own filters and functions are subject to the policy as well -----------
+
+var vhC06Builtins = []struct {
+	fn   bool
+	name string
+	tpl  string
+}{
+	{true, "range", "{{ range(1, 2)|length }}"}, {true, "length", "{{ length(xs) }}"}, {true, "count", "{{ count(xs) }}"},
+	{true, "max", "{{ max(1, 2) }}"}, {true, "min", "{{ min(1, 2) }}"}, {true, "cycle", "{{ cycle(xs, 0) }}"},
+	{true, "date", "{{ date('2024-01-02')|length > 0 }}"}, {true, "include", "{{ include('leaf2') }}"},
+	{true, "merge", "{{ merge(xs, xs)|length }}"}, {true, "constant", "{{ constant('X') }}"},
+	{true, "count", "{% if count(xs) > 0 %}y{% endif %}"}, {true, "count", "{% for i in range(1, count(xs)) %}{{ i }}{% endfor %}"},
+	{false, "upper", "{{ x|upper }}"}, {false, "length", "{{ xs|length }}"}, {false, "count", "{{ xs|count }}"},
+	{false, "e", "{{ x|e }}"}, {false, "escape", "{{ x|escape }}"}, {false, "join", "{{ xs|join(',') }}"},
+	{false, "default", "{{ nosuch|default('d') }}"}, {false, "raw", "{{ x|raw }}"}, {false, "first", "{{ xs|first }}"},
+	{false, "escape", "{% apply escape %}{{ x }}{% endapply %}"}, {false, "e", "{% macro k(a) %}{{ a|e }}{% endmacro %}{{ k(x) }}"},
+}
+
+// VH_C06_Builtins: one use of a built-in function or filter inside a sandboxed include under a symbolic
+// policy: the render succeeds exactly when the policy allows that name in that role, and fails with a
+// security violation otherwise. (The harness cannot spy on built-ins; refusal is observed instead.)
+func VH_C06_Builtins() {
+	k := symChoice(len(vhC06Builtins))
+	b := vhC06Builtins[k]
+	role := "filter:"
+	if b.fn {
+		role = "function:"
+	}
+	symTag("use:" + role + b.name + " in " + b.tpl)
+	pol := &vhPolicy{filt: map[string]bool{}, fn: map[string]bool{}}
+	e := New()
+	e.EnableSandbox(pol)
+	e.RegisterString("leaf2", "L")
+	e.RegisterString("inner", b.tpl)
+	if e.RegisterString("main", "[{% include 'inner' sandboxed %}]") != nil {
+		return
+	}
+	_, err := e.Render("main", map[string]interface{}{"x": "v", "xs": []interface{}{"a", "b"}})
+	symCover("rendered")
+	// every other name the template needs is allowed only if the policy said so; the name under test:
+	var allowed bool
+	if b.fn {
+		allowed = pol.IsFunctionAllowed(b.name)
+	} else {
+		allowed = pol.IsFilterAllowed(b.name)
+	}
+	if !allowed {
+		symCover("denied")
+		symAssert(err != nil, "denied-builtin-fails-render")
+		if err != nil {
+			var sv *SecurityViolation
+			symAssert(errors.As(err, &sv), "error-is-security-violation")
+		}
+	}
+}
